@@ -40,6 +40,9 @@ type World struct {
 	C      *di.Container
 	Ctx    context.Context
 	Link   any // the simulated gRPC link, if one was created
+	// Dropped[i]: root i has been taken out of the configuration (an operator removed it before a
+	// restart); what it holds stays readable, nothing new may be put there
+	Dropped map[int]bool
 }
 
 var worldCounter int
@@ -143,7 +146,13 @@ func (w *World) usedBytes(i int) int64 {
 }
 
 func (w *World) Config() config.Config {
-	return w.ConfigFor(w.DBDir, w.Roots)
+	var roots []string
+	for i, r := range w.Roots {
+		if !w.Dropped[i] {
+			roots = append(roots, r)
+		}
+	}
+	return w.ConfigFor(w.DBDir, roots)
 }
 
 func (w *World) ConfigFor(dbDir string, roots []string) config.Config {
